@@ -1,8 +1,40 @@
 CONFIG = dict(
         level='proof',
         streams=[dict(harness='c03', driver='c03', shrink_field='ops')],
-        rule='TODO',
-        exhaustive_note='TODO',
-        assumptions=[],
-        trusted_base=['hand-written Gallina model coq/theories/File/Model.v of internal/burndown/file.go (NewFile, updateTime, Len, Update), tied to the code by the replay of every harness case'],
+        rule='one case = NewFile(t0, n0) followed by a list of Update(tick, pos, ins, del) on the real burndown.File with one logging Updater; '
+             'observed after every call: panic class or Len(), the node list of the tree, the flattened lines, the Updater calls. '
+             'Streams: ex = every sequence of <=3 (quick: <=2 for n0 in 3..4) in-range operations on files of 0..4 lines, pos 0..len, del 0..len-pos, ins 0..2, ticks {t0, t0+1}; '
+             'exbad = every request with pos, del in -1..len+1 and ins in -1..1 after every valid prefix of <=1 operation; '
+             'rnd / rndsmall = random sequences (lengths 0..200 / 0..12, 1..60 / 1..25 operations, deletions spanning several intervals or ending exactly at an interval start, '
+             'ticks equal to a neighbouring or deleted interval\'s tick, 25% of the runs with packed authors above bit 14, a third of the runs with 10% merge-mark ticks); '
+             'malformed = a valid random prefix followed by one request that is negative, beyond the end, past the end, >= 2^32 (incl. the wrapped values of F12) or empty beyond the end, and bad NewFile arguments; '
+             'huge = files of 2^32-1-k and 2^31+-k lines with in-range requests (uint32 boundary). '
+             'Non-trivial = at least one operation that inserts or deletes was executed without a panic; distinct = distinct (t0, n0, operation list).',
+        exhaustive_note='initial lengths 0..4 x all sequences of <=3 in-range operations (quick tier: <=2 operations for lengths 3..4) with pos 0..len, del 0..len-pos, ins 0..2, ticks {t0, t0+1}, '
+                        'every prefix observed; plus all malformed single requests with pos, del in -1..len+1, ins in -1..1 after every valid prefix of <=1 operation',
+        assumptions=[
+            'the tracker state is modelled as the in-order (key, value) list of File.tree; that the red-black tree behaves as this ordered map is property C05 (the harness observes the real tree through Min/Next after every call)',
+            'Go int is modelled as unbounded Z (requests near 2^63 are outside the model); every uint32(x) conversion of file.go is x mod 2^32',
+            'the theorems need the uint32 side condition "Len + ins - del <= 2^32-1" (the code wraps silently beyond it; the harness stays inside it) and, for deletions, '
+            '"a deleted line that carries the merge mark carries the operation\'s own tick" (otherwise updateTime panics by design: previousTime cannot be TreeMergeMark)',
+            'an empty request (ins = del = 0) is a no-op wherever it points (C03_update_empty_request); it is not counted as an accepted out-of-range request',
+            'one Updater is registered; the order of calls within one Update is compared with the model (fine), only the per-value sums matter for the property (coarse)',
+        ],
+        trusted_base=[
+            'hand-written Gallina model coq/theories/File/Model.v of internal/burndown/file.go (NewFile, updateTime, Len, Update as of the commits "fix: File.Update kept a wrapped uint32 origin key ..." and "fix: File.Update silently accepted lengths >= 2^32"), tied to the code by the replay of every harness case (node list, Len, Updater calls, panic class after every call)',
+            'the property oracle of the driver: extracted arr_update / validb / must_panicb / is_mark plus an OCaml hash table for the running histogram',
+        ],
+        level_text='Coq theorems over the executable list model of File.Update/NewFile/updateTime: for every well-formed tracker state and every in-range request one Update yields exactly the '
+                   'plain-array edit (lines, length), keeps the state well formed, reports deltas whose per-value sums equal the change of the array histogram (nothing when the tick carries '
+                   'the merge mark), and every out-of-range request (negative, beyond/past the end, >= 2^32) panics; lifted by induction to all operation sequences from NewFile '
+                   '(C03_sequences, C03_sequences_histogram). All closed under the global context. The model is tied to the Go code by fine correspondence on >100k generated cases per run incl. exhaustive small scopes.',
+        level_note='Proved about the Gallina model, not about the Go source (no verified Go semantics): the tie is the per-run replay (node list, Len, Updater calls, panic class after every call; '
+                   'flattened lines and running histogram against the extracted array oracle). The red-black tree is abstracted to its in-order item list (C05). '
+                   'Side conditions stated explicitly in the theorems: keys are uint32 (Len <= 2^32-1 is part of WF), the new length must fit (Len+ins-del <= 2^32-1; beyond it the code wraps silently, '
+                   'not covered), a deleted line carrying the merge mark must carry the operation\'s tick (else updateTime panics by design). Empty requests (ins=del=0) are no-ops at any position. '
+                   'NewFile with a negative length builds a one-node tree on which every later Update panics (outside the quantifier "all initial lengths"; followed by the correspondence only). '
+                   'C03_update_refuted_before_fix documents the repaired defect F2 on a model of the code before the fix.',
+        technique='machine-checked proof in Coq 8.16 over a hand-written executable Gallina model (about 2 000 lines: locate / deletion loop / prepare / finish blocks, pointwise value reasoning, tabulation) '
+                  '+ extraction to OCaml + replay of Go harness traces (exhaustive small scope, random, malformed, uint32-boundary streams) with an extracted plain-array oracle',
+        search_seconds=120,
     )
